@@ -3,12 +3,20 @@ use crate::report::{Ctx, Report};
 use serde_json::{json, Value};
 
 pub mod c07;
+pub mod c08;
+pub mod c09;
+pub mod c15;
+pub mod c20;
 
 type LaneFn = fn(&Ctx) -> Report;
 
 pub fn lanes_of(id: &str) -> Vec<(&'static str, LaneFn)> {
     match id {
         "C07" => vec![("trees", c07::trees), ("integers", c07::integers), ("nonminimal", c07::nonminimal)],
+        "C08" => vec![("generated", c08::generated), ("exhaustive", c08::exhaustive), ("mutated", c08::mutated), ("rejection", c08::rejection_classes)],
+        "C09" => vec![("exhaustive_short", c09::exhaustive_short), ("exhaustive_meta", c09::exhaustive_meta), ("random", c09::random)],
+        "C15" => vec![("random", c15::random), ("patterns", c15::patterns)],
+        "C20" => vec![("random", c20::random), ("errors", c20::errors)],
         _ => vec![],
     }
 }
@@ -33,6 +41,10 @@ pub fn run(ctx: &Ctx, id: &str, only: Option<&str>) -> Vec<Value> {
 pub fn replay(ctx: &Ctx, id: &str, v: &Value) -> Value {
     let rep = match id {
         "C07" => c07::replay(ctx, v),
+        "C08" => c08::replay(ctx, v),
+        "C09" => c09::replay(ctx, v),
+        "C15" => c15::replay(ctx, v),
+        "C20" => c20::replay(ctx, v),
         _ => Report::new(),
     };
     rep.to_json("replay")
